@@ -849,9 +849,20 @@ fn dump_crate<'tcx>(tcx: TyCtxt<'tcx>) -> J {
             DefKind::Fn => "fn",
             DefKind::AssocFn => "assocfn",
             DefKind::Closure => "closure",
+            DefKind::Const { .. } | DefKind::AssocConst { .. } => "const",
             _ => continue,
         };
         let name = tcx.def_path_str(did);
+        if kind == "const" {
+            // the initializer of a named constant whose value is not a scalar / string / array the constant evaluator below
+            // can decode (`const GZIP: HeaderValue = HeaderValue::from_static("gzip")`): its MIR, filed like a promoted
+            // body under the constant's path, so that the interpreter can read the value off it
+            if tcx.generics_of(did).is_empty() {
+                let body = tcx.mir_for_ctfe(did);
+                bodies.push(body_j(&mut cx, did, body, name.clone(), "promoted"));
+            }
+            continue;
+        }
         let body = tcx.optimized_mir(did);
         bodies.push(body_j(&mut cx, did, body, name.clone(), kind));
         // promoted consts of this body
